@@ -142,6 +142,10 @@ func registerLaws(r *mc.Registry) {
 			{`Success("")`, func(*Env) fp.Try[string] { return try.Success("") }},
 			{"Failure(e1)", func(*Env) fp.Try[string] { return try.Failure[string](E[1]) }},
 			{"Failure(e2)", func(*Env) fp.Try[string] { return try.Failure[string](E[2]) }},
+			// the library's own errors are values like any other
+			{"Failure(ErrOptionEmpty)", func(*Env) fp.Try[string] { return try.Failure[string](fp.ErrOptionEmpty) }},
+			{"FromOption(None)", func(*Env) fp.Try[string] { return try.FromOption(option.None[string]()) }},
+			{"Failure(ErrTryNotFailed)", func(*Env) fp.Try[string] { return try.Failure[string](fp.ErrTryNotFailed) }},
 		},
 		alpha: []named[func(*Env, string) fp.Try[string]]{
 			{"unit", func(_ *Env, s string) fp.Try[string] { return try.Success(s) }},
@@ -155,6 +159,12 @@ func registerLaws(r *mc.Registry) {
 			}},
 			{"const", func(*Env, string) fp.Try[string] { return try.Success("k") }},
 			{"fail-other", func(*Env, string) fp.Try[string] { return try.Failure[string](EK2) }},
+			{"fail-ErrOptionEmpty-on-a", func(_ *Env, s string) fp.Try[string] {
+				if s == "a" {
+					return try.FromOption(option.None[string]())
+				}
+				return try.Failure[string](fp.ErrFutureNotFailed)
+			}},
 		},
 	})
 
@@ -340,6 +350,7 @@ func registerLaws(r *mc.Registry) {
 		dom: []named[func(*Env) ST]{
 			{"Pure(a)", func(*Env) ST { return statet.Pure[int]("a") }},
 			{"FromTry(Failure(e1))", func(*Env) ST { return statet.FromTry[int](try.Failure[string](E[1])) }},
+			{"FromTry(FromOption(None))", func(*Env) ST { return statet.FromTry[int](try.FromOption(option.None[string]())) }},
 			{"FromTry(Success(b))", func(*Env) ST { return statet.FromTry[int](try.Success("b")) }},
 			{"GetS", func(*Env) ST { return statet.GetS(func(s int) string { return "g" + Itoa(s) }) }},
 			{"ModifyS", func(*Env) ST {
@@ -361,6 +372,7 @@ func registerLaws(r *mc.Registry) {
 		alpha: []named[func(*Env, string) ST]{
 			{"unit", func(_ *Env, a string) ST { return statet.Pure[int](a) }},
 			{"fail", func(_ *Env, a string) ST { return statet.FromTry[int](try.Failure[string](E[0])) }},
+			{"fail-ErrOptionEmpty", func(_ *Env, a string) ST { return statet.FromTry[int](try.Failure[string](fp.ErrOptionEmpty)) }},
 			{"plus-and-move", func(_ *Env, a string) ST {
 				return func(s int) (fp.Try[string], int) { return try.Success(a + "+" + Itoa(s)), 3*s + 1 }
 			}},
